@@ -383,9 +383,16 @@ func (k *Keeper) ApplyMessageWithConfig(ctx sdk.Context,
 		// take over the nonce management from evm:
 		// - reset sender's nonce to msg.Nonce() before calling evm.
 		// - increase sender's nonce by one no matter the result.
+		// - keep a nonce the ante handler has already advanced further: in a transaction carrying
+		//   several messages of the sender it stands past all of them, and rewinding it to
+		//   msg.Nonce()+1 would make the messages after the creation replayable.
+		nonceBefore := stateDB.GetNonce(sender.Address())
 		stateDB.SetNonce(sender.Address(), msg.Nonce())
 		ret, _, leftoverGas, vmErr = evm.Create(sender, msg.Data(), leftoverGas, msg.Value())
 		stateDB.SetNonce(sender.Address(), msg.Nonce()+1)
+		if nonceBefore > msg.Nonce()+1 {
+			stateDB.SetNonce(sender.Address(), nonceBefore)
+		}
 	} else {
 		ret, leftoverGas, vmErr = evm.Call(sender, *msg.To(), msg.Data(), leftoverGas, msg.Value())
 	}
